@@ -165,3 +165,35 @@ def leaves_inputs_alone(ctx, rule, d, r, consequence="every other consumer of th
         ctx.violate(rule, con, d.module.rel, w0.line, "%s writes in place through its input %s (%s): %s" % (d.cls.name, tok_text(shared), w0.what, consequence))
     else:
         ctx.hold(rule, con, d.module.rel, d.execute.node.lineno, "no in-place write reaches an input", nontrivial=bool(r.writes))
+
+
+def returns_with_parameter(d, r, names):
+    """array values returned on paths where the optional parameter(s) `names` were given, i.e. not under `<param> is None`
+    (a reader that returns early when no missing value was declared has nothing to mask on that path)"""
+    import ast as _ast
+
+    from . import common as _K
+
+    out = []
+    for s_, v, _fk in r.returns:
+        if not isinstance(v, Arr):
+            continue
+        absent = False
+        for test, taken in r.return_conds.get(id(s_), ()):
+            e = _K.expand(d.execute, test)
+            neg = False
+            while isinstance(e, _ast.UnaryOp) and isinstance(e.op, _ast.Not):
+                neg = not neg
+                e = e.operand
+            if isinstance(e, _ast.Compare) and len(e.ops) == 1 and isinstance(e.ops[0], (_ast.Is, _ast.IsNot)) and isinstance(e.comparators[0], _ast.Constant) and e.comparators[0].value is None:
+                mentions = any(isinstance(x, _ast.Constant) and x.value in names for x in _ast.walk(e.left))
+                is_none = isinstance(e.ops[0], _ast.Is) != neg
+                if mentions and (taken == is_none):
+                    absent = True
+            if isinstance(e, _ast.Compare) and len(e.ops) == 1 and isinstance(e.ops[0], (_ast.In, _ast.NotIn)) and isinstance(e.left, _ast.Constant) and e.left.value in names:
+                present = isinstance(e.ops[0], _ast.In) != neg
+                if taken != present:
+                    absent = True
+        if not absent:
+            out.append(v)
+    return out
